@@ -102,7 +102,7 @@ def run(ctx):
             if k >= 2:              # boundary values, one free START word at a time (fd -1 / -2 = AT_FDCWD, flags 0 / 1, ...)
                 from .c09 import BOUNDARY
                 j = k % 4
-                if AUDIT[name_for_words]['dom'][j] is None:
+                if name_for_words in AUDIT and AUDIT[name_for_words]['dom'][j] is None:
                     S[j] = BOUNDARY[(k // 4 + j) % len(BOUNDARY)]
             vecs.append((S, E, k))
         # constants the twin's / base's own code mentions (mined from the working tree): alone, tuples at every offset,
